@@ -112,9 +112,12 @@ def replay(rec, cfg, w):
     root = S.build(S.from_json(w["tree"]))
     rules = [(w["rule"], MR.make_rule(w["rule"]))] if "rule" in w else MR.rule_instances()
     rng = cfg.rng("replay")
-    for label, rule in rules:
-        rule.find_node(root)
-    D.apply_everywhere(rec, root, rules, rng, cap=50)
+    try:
+        for label, rule in rules:
+            rule.find_node(root)
+        D.apply_everywhere(rec, root, rules, rng, cap=50)
+    except RecursionError:
+        rec.skip("replay: tree too deep")
     if "node_index" in w:
         root = S.build(S.from_json(w["tree"]))
         try:
